@@ -7,7 +7,7 @@ From Coq Require String.
 Import String.StringSyntax.
 Local Open Scope N_scope.
 
-(* (a) FCC, text level.  For EVERY delimiter d that is not white space, EVERY string str not containing d
+(* (a) FCC, text level.  For EVERY delimiter d that is not white space, EVERY string str of one-byte characters not containing d
    (any characters: runs of spaces, ';', punctuation outside the operand character class, other quote
    characters) and EVERY trailing text (comment, blanks, nothing), the source line
         " FCC " d str d tail
@@ -15,7 +15,7 @@ Local Open Scope N_scope.
    re-assembled from two regex groups, repair F16) ... *)
 Theorem C05_fcc_parses_to_its_characters :
   forall d str tail,
-    is_space d = false -> ~ In d str -> mem_c 10 (removelast (fcc_line d str tail)) = false ->
+    is_space d = false -> ~ In d str -> Forall (fun c => c < 256) str -> mem_c 10 (removelast (fcc_line d str tail)) = false ->
     exists st, parse_line (fcc_line d str tail) = Ok (Some st) /\ s_operand st = OPseudo (d :: str ++ [d]) (VStr str) /\
                find_instr FCC_t Tables.instructions = Some (s_instr st) /\ s_label st = [].
 Proof. exact fcc_parses_to_its_characters. Qed.
